@@ -851,3 +851,15 @@ ENTRIES += [
     M("C02-lru-cache-observation", ["C02", "C12"], ["C02.3", "C12.1"], (PEN, "    def observation(\n        self, state: PendulumState", "    @functools.lru_cache(maxsize=None)\n    def observation(\n        self, state: PendulumState"), (PEN, "from typing import ClassVar", "import functools\nfrom typing import ClassVar"), stale_ok=True),
     M("C11-io-callback-in-step", "C11", "C11.1", (OFP, "        timeout = truncation & ~termination", "        timeout = truncation & ~termination & jax.experimental.io_callback(lambda: True, jnp.array(True))")),
 ]
+
+ENTRIES += [
+    # ---------------------------------------------------------------- thirteenth seeding round
+    M("S13-sac-reset-target2-is-critic1", ["C07", "C10"], ["C07.10", "C10.6"], (SAC, "        qf2_target = qf2\n", "        qf2_target = qf1\n")),
+    M("S13-sac-reset-critics-share-key", ["C07", "C10"], ["C07.10", "C10.6"], (SAC, "            key=qf2_key,\n        )\n\n        qf1_target", "            key=qf1_key,\n        )\n\n        qf1_target")),
+    V("S13-v-sac-reset-targets-rebuilt-from-own-keys", ["C07", "C10"], (SAC, "        qf1_target = qf1\n        qf2_target = qf2\n", "        qf1_target = SoftQNetwork(observation_size, action_size, width_size=self.q_width_size, depth=self.q_depth, key=qf1_key)\n        qf2_target = SoftQNetwork(observation_size, action_size, width_size=self.q_width_size, depth=self.q_depth, key=qf2_key)\n")),
+    M("S13-qpolicy-epsilon-python-clamp", "C18", "C18.5", (QML, "        self.epsilon = epsilon\n", "        self.epsilon = min(max(epsilon, 0.0), 1.0)\n")),
+    M("S13-qpolicy-epsilon-range-check", "C18", "C18.5", (QML, "        self.epsilon = epsilon\n", "        if epsilon < 0.0:\n            raise ValueError(\"epsilon must be non-negative\")\n        self.epsilon = epsilon\n")),
+    V("S13-v-qpolicy-epsilon-jnp-clip", "C18", (QML, "import equinox as eqx\n", "import equinox as eqx\nimport jax.numpy as jnp\n"), (QML, "        self.epsilon = epsilon\n", "        self.epsilon = jnp.clip(epsilon, 0.0, 1.0)\n")),
+    M("S13-learn-donates-arguments", "C11", "C11.11", (BA, "    @eqx.filter_jit\n    def learn(", "    @eqx.filter_jit(donate=\"all-except-first\")\n    def learn(")),
+    V("S13-v-learn-jit-donate-none", "C11", (BA, "    @eqx.filter_jit\n    def learn(", "    @eqx.filter_jit(donate=\"none\")\n    def learn(")),
+]
